@@ -186,8 +186,9 @@ func fillMsg(r *rng, m interface{}) {
 }
 
 // runK1 is the codec correspondence: for random messages of every registered type,
-//   LHS: type, tag, field values handed to send()
-//   RHS: the frame the real send() wrote, and the field values the real recv() rebuilt from it.
+//
+//	LHS: type, tag, field values handed to send()
+//	RHS: the frame the real send() wrote, and the field values the real recv() rebuilt from it.
 func runK1(r *rng, n int) {
 	types := p9.VerifMsgTypes()
 	for i := 0; i < n; i++ {
